@@ -291,6 +291,9 @@ pub fn c19(a: &Args) {
         }
     }
     for len in [64usize, 100, 257] { let bytes: Vec<u8> = (0..len).map(|_| r.gen()).collect(); emit(str_event(&bytes), &mut outs); }
+    // long inputs around powers of two (an implementation may switch algorithms by input size)
+    let long: &[usize] = if thorough { &[1023, 1024, 4095, 4096, 4097, 16384, 32768, 65535, 65536, 65537, 131072, 262149] } else { &[4096, 65535, 65536, 65537, 131077] };
+    for &len in long { let bytes: Vec<u8> = (0..len).map(|_| r.gen()).collect(); emit(str_event(&bytes), &mut outs); }
     // two-byte strings: packed per first byte
     let firsts: Vec<u32> = if thorough { (0..256).collect() } else { let mut v = vec![0, 1, 0x80, 0xFF]; for _ in 0..12 { v.push(r.gen_range(0..256)); } v };
     for a0 in firsts {
@@ -310,5 +313,10 @@ fn str_event(bytes: &[u8]) -> Value {
     let mut inc32 = 0xFFFF_FFFFu32;
     for b in bytes { inc32 = update_crc32(inc32, *b); }
     inc32 = !inc32;
+    if bytes.len() > 512 {
+        // long inputs: TLC does not re-divide 64 KiB bit by bit; the one-shot value is compared with the byte-wise feed, whose
+        // single steps are judged against the bitwise definition by the update rows
+        return json!({"ev":"long","len":bytes.len(),"one16":one16,"inc16":inc16,"one32":hi_lo(one32),"inc32":hi_lo(inc32)});
+    }
     json!({"ev":"str","bytes":bytes,"one16":one16,"inc16":inc16,"one32":hi_lo(one32),"inc32":hi_lo(inc32)})
 }
